@@ -143,3 +143,22 @@ Theorem C17_go_indent_appends : forall pooled ind src out0,
   match Scan.indent_go ind src with Some o => IndentGen.ROk (out0 ++ o) | None => IndentGen.RErr out0 end.
 Proof. exact IndentTie.indent_run_is_model. Qed.
 Print Assumptions C17_go_indent_appends.
+
+(* ---- the string decoder itself: unquoteBytes and getu4 of v5/internal/json/decode.go RE-TRANSLATED on every run
+   (tools/gounquote2v -> gen/UnquoteGen.v: the output buffer as a byte list of the allocated length with the write
+   index, a range guard on every index, slice and EncodeRune write, bytes with uint8 wrap-around) and proved
+   (UnquoteTie.v): on every body the scanner accepts it returns the model's unquote; on EVERY byte string it
+   neither indexes out of range nor runs out of fuel.  utf8.DecodeRune / EncodeRune and the utf16 functions
+   are modelled (Utf8Rune.v, Utf16Rune.v). ---- *)
+From JP Require UnquoteTie.
+From JP.gen Require UnquoteGen.
+
+Theorem C17_go_string_decoder_is_unquote : forall body, sbody body ->
+  UnquoteGen.unquote_full_gen ([x22] ++ body ++ [x22]) = UnquoteGen.UOk (unquote body).
+Proof. exact UnquoteTie.unquote_full_gen_is_unquote. Qed.
+Print Assumptions C17_go_string_decoder_is_unquote.
+
+Theorem C17_go_string_decoder_never_panics : forall s,
+  UnquoteGen.unquote_full_gen s <> UnquoteGen.UPanic /\ UnquoteGen.unquote_full_gen s <> UnquoteGen.UFuel.
+Proof. exact UnquoteTie.unquote_full_gen_no_panic. Qed.
+Print Assumptions C17_go_string_decoder_never_panics.
